@@ -895,6 +895,8 @@ def m_setattr(i, args, kw, st, node):
 
 def m_memoryview(i, args, kw, st, node):
     v = args[0] if args else UNK
+    if isinstance(v, (bytes, bytearray)):
+        return bytes(v)          # a read-only view: same content
     n = _blen(v)
     return ABytes(n, "memoryview")
 
@@ -990,6 +992,11 @@ def m_super(i, args, kw, st, node):
 
 
 def m_type(i, args, kw, st, node):
+    if len(args) == 3 and isinstance(args[2], dict) and all(isinstance(k, str) for k in args[2]):
+        # type(name, bases, namespace): a namespace object (the repo's enum() idiom)
+        o = i.new_obj(st, label="type:" + str(args[0]), attrs=dict(args[2]), havoc=False)
+        o.const_attrs = dict(args[2])
+        return o
     if len(args) == 1:
         v = args[0]
         if isinstance(v, AObj) and v.cnode is not None:
